@@ -204,3 +204,32 @@ func othersBlocked() bool {
 	}
 	return true
 }
+
+// RunFree runs body once in free-running mode (real goroutines, every shim passes through, Quiesce waits
+// until all other goroutines are blocked) and reports how it ended. Used for whole-process cases that
+// involve goroutines the controlled scheduler cannot own (a real HTTP listener).
+func RunFree(body func()) Outcome {
+	fs := &freeState{rng: rand.New(rand.NewSource(1)), env: map[string]any{}, notes: map[string]bool{}, deadline: time.Now().Add(60 * time.Second)}
+	free = fs
+	defer func() { free = nil }()
+	done := make(chan struct{})
+	go func() {
+		defer close(done)
+		defer fs.recoverPanic()
+		body()
+	}()
+	select {
+	case <-done:
+	case <-time.After(120 * time.Second):
+		return Outcome{Kind: "free-timeout", Detail: "the free-running body did not finish"}
+	}
+	fs.mu.Lock()
+	defer fs.mu.Unlock()
+	if len(fs.panics) > 0 {
+		return Outcome{Kind: "panic", Detail: firstLine(fs.panics[0]), Stack: fs.panics[0]}
+	}
+	if fs.timedOut {
+		return Outcome{Kind: "free-timeout", Detail: "quiescence was not reached"}
+	}
+	return Outcome{Kind: "ok"}
+}
